@@ -319,6 +319,42 @@ def _pl(b, pl):
     return "%s (%s)" % (s, nm) if nm else s
 
 
+def _identity_rebinding(PB, r, name):
+    """`#[cfg] let x = f(x);` where, in the feature build with helpers expanded, the new x is a copy of the old x"""
+    for b in PB.lib_bodies("asn1rs"):
+        if b.file != r["file"] or not (b.name == r["fn"] or (b.root or "").split("::")[-1] == r["fn"]):
+            continue
+        inside_l, outside_l = [], []
+        for d in b.raw["debug"]:
+            pl = d.get("pl")
+            if d.get("name") != name or pl is None or pl["p"] or d.get("inlined_from"):
+                continue
+            sp = user_span(d.get("sp"))
+            (inside_l if sp and inside(r["span"], sp) else outside_l).append(pl["l"])
+        if not inside_l or not outside_l:
+            continue
+        O = X.Origins(b, PB)
+        ok = True
+        for l in inside_l:
+            defs = b.defs.get(l, ())
+            if not defs:
+                ok = False
+            for d in defs:
+                if d[2] == "assign":
+                    got = X.strip(O.rvalue(d[3], d[0], d[1], 0))
+                elif d[2] == "call":
+                    got = X.strip(O.call_ex(d[3], 0))
+                else:
+                    ok = False
+                    continue
+                j = d[1] if d[1] >= 0 else len(b.blocks[d[0]]["stmts"])
+                if not any(X.strip(O.local(o, d[0], j)) == got for o in outside_l):
+                    ok = False
+        if ok:
+            return True
+    return False
+
+
 def r5(ctx, regions):
     rule = "C19.R5"
     ctx.rule(rule, "binding neutrality: a gated `let` must not rebind a name that ungated code reads, except `let x = x.map_err(|mut e| "
@@ -347,6 +383,11 @@ def r5(ctx, regions):
             continue
         detail["shadows"] = sorted(shadows)
         m = re.search(r"let%s=%s\.map_err\(" % (re.escape(name), re.escape(name)), text)
+        if not m and len(r["lets"]) == 1 and _identity_rebinding(PB, r, name):
+            detail["obligations"] = "the gated binding receives the value of the binding it shadows (value origins of the feature build, " \
+                                    "helpers expanded): ungated code reads the same value with and without the feature"
+            ctx.ok(rule, key, detail)
+            continue
         if not m or len(r["lets"]) != 1 and set(r["lets"]) - {name, "e"}:
             ctx.fail(rule, key, "gated `let %s` binds a name that ungated code can read and is not the reviewed map_err form" % name,
                      "%s:%d" % (r["file"], r["span"][0]), detail)
